@@ -27,7 +27,7 @@ CHECKS = {
          "Bounded symbolic model checking: for each entry point (parse_isodate, parse_isotime, parse_tzstr, isoparse with sep None/'T'/' ') and each input length in the cell list, every path of the real parser over "
          "arbitrary bytes is explored; on accepting paths z3 proves the bytes match a strict ISO-8601 layout and the value is its denotation; any exception other than ValueError is a violation.",
          "Trusted: CrossHair's bytes/datetime models with the stubs of engine/stubs.py (int(bytes) DFA validated each run; fork-free isdigit/contains; forward-map calendar decomposition; lemma year_step proved each run), "
-         "each path's witness replayed natively on real datetime. Quick tier decides week-shaped inputs for 5 year residues mod 400; thorough for all years. str/stream inputs and longer strings are outside.", "§5 C20", "chx"),
+         "each path's witness replayed natively on real datetime. Quick tier decides week-shaped inputs for 16 year residues mod 400 (every leap / weekday-of-1-January class); thorough for all years. str/stream inputs and longer strings are outside.", "§5 C20", "chx"),
  "C07": ("symbolic execution (CrossHair core + z3) of the real isoparser on structured ISO-8601 forms whose digits (and sign / free separator bytes) are solver variables; z3 proves accept-and-equal-denotation on every path; path-exhaustive per form",
          "model_checking",
          "Bounded symbolic model checking over the rendered fields: every datetime has exactly one rendering per form, so quantifying over all digit values of a form covers all datetimes in that form. "
@@ -72,11 +72,11 @@ CHECKS = {
  "C08": ("symbolic execution (CrossHair core + z3) of tzstr / tzrange / tzlocal with the instant (UTC resp. wall) as solver variable against break points from an independent POSIX TZ implementation; tzlocal runs on a platform model (time.localtime etc.) following the same rule",
          "model_checking",
          "Bounded symbolic model checking per (rule, year, zone kind): every second of the year +-3 days; offset, abbreviation, dst, round trip, exists/ambiguous/fold clauses.",
-         TS + " Rules and years are enumerated cells (9-17 rule specs x 1-6 years); malformed-string rejection is outside. Known findings: tzstr rules whose end time is below the saving or 24:00.", "§5 C08", "chx"),
+         TS + " Rules and years are enumerated cells (9-17 rule specs x 1-6 years); malformed strings: a hand-written list plus every prefix / one-character deletion of the well-formed specs (pinned, native); arbitrary malformed text is outside. Known findings: tzstr rules whose end time is below the saving or 24:00; lenient tokeniser acceptances.", "§5 C08", "chx"),
  "C17": ("symbolic execution (CrossHair core + z3) of tzical zones parsed from generated VTIMEZONE text (RRULE / RDATE / swapped / folded / two zones) with the instant as solver variable, against the same independent POSIX reference as C08",
          "model_checking",
          "Bounded symbolic model checking per (rule, variant, year): every second of a year within 6 years after the first onset; plus structural malformed-definition and get()/keys() cells.",
-         TS + " J/n rule forms, instants before the first onset and all-DAYLIGHT definitions are outside.", "§5 C17", "chx"),
+         TS + " J/n rule forms and all-DAYLIGHT definitions are outside; instants before the first onset are covered by the two-STANDARD-component cells only.", "§5 C17", "chx"),
  "C01": ("(1) symbolic execution (CrossHair core + z3) of the kernels __mod_distance, __construct_byset and the constructor's BY-part normalisation with solver-variable values; (2) end-to-end prefixes of ~50 rule shapes x 3-5 start dates, once per calendar class (weekday of 1 Jan + leap flags of the touched years; classes enumerated through the engine, all years 2..9990 covered by an exhaustive native class scan), compared with an independent brute-force RFC 5545 reference",
          "other",
          "Layer (1) is bounded symbolic model checking. Layer (2) is class enumeration with concrete execution per class: a symbolic start year made every calendar query `unknown` (measured), so the solver does not decide this layer; it is kept because it is what detects iteration/carry/mask regressions.",
@@ -84,11 +84,11 @@ CHECKS = {
  "C02": ("symbolic execution (CrossHair core + z3) of the real parser (_parse, _parse_numeric_token, _ymd.resolve_ymd, _build_naive, _build_tzaware) on ~30-70 text templates whose digits are solver variables; kernels resolve_ymd / convertyear / _adjust_ampm with symbolic values; path-exhaustive per template; the fraction-scaling kernel _parsems is re-read from the source and translated to QF_BVFP (digit runs as bit-vectors, float() / * / int() with IEEE binary64 semantics), one unsat obligation per text shape",
          "model_checking",
          "Bounded symbolic model checking: for each template every value of every digit-bearing field (valid calendar/clock values) is covered; z3 proves on each path that the parsed datetime equals the rendered fields, truncated to the rendered precision, aware with the rendered offset.",
-         "%s Month/weekday names are enumerated templates; free text, fractions > 6 digits, bytes/stream input are outside. Local zone names fixed to non-UTC names." % PT, "§5 C02", "chx"),
+         "%s Month/weekday names are enumerated templates; free text, fractions > 6 digits in the template cells (the _parsems obligations go to 7 / 12 digits), bytes/stream input are outside. Local zone names fixed to non-UTC names." % PT, "§5 C02", "chx"),
  "C14": ("symbolic execution (CrossHair core + z3) of the real parser on ~300 templates whose digits are UNCONSTRAINED solver variables (field lengths 1..40 digits, all separators, am/pm, h/m/s labels, offsets) under the option combinations; any exception other than ParserError/OverflowError is a violation; the call is repeated inside the path to detect state",
          "model_checking",
          "Bounded symbolic model checking of exception-type totality and determinism over all digit values per template.",
-         PT + " Arbitrary Unicode/letters inside numbers and the tzinfos option are outside.", "§5 C14", "chx"),
+         PT + " Arbitrary Unicode/letters inside numbers (beyond the adversarial tails of the prompt-termination cells) and the tzinfos option are outside.", "§5 C14", "chx"),
  "C15": ("symbolic execution (CrossHair core + z3): _build_naive on directly constructed results (symbolic field values and default), the zone-resolution cascade _build_tzaware/validate with a symbolic offset and a name vocabulary under every tzinfos form, GMT+h sign templates, and fuzzy / fuzzy_with_tokens agreement on C02 templates inside filler sentences",
          "model_checking",
          "Bounded symbolic model checking of the option semantics: clipping/weekday shift for all default month/day values, the documented zone precedence for all offsets, fuzzy variants agreeing with the plain parse for all digit values.",
